@@ -61,6 +61,8 @@ func main() {
 		err = runL1(seed, n, dir, modes, true, false)
 	case "l1s":
 		err = runL1S(seed, n, dir)
+	case "mast":
+		err = runMast(seed, n, dir)
 	case "l2c":
 		err = runL2C(seed, n, dir)
 	case "l2t":
